@@ -1293,13 +1293,14 @@ def popad(info):
 def call(info, a, b, seg = None):
     e= []
     opmode, admode = info.opmode, info.admode
+    # the operand size gives the size of the slot; the stack pointer of a
+    # 32-bit stack segment is esp whatever the operand size (as in push/pop)
     if opmode == x86_afs.u16:
         s = 16
-        myesp = esp[:16]
     else:
         s = 32
-        myesp = esp
-    int_cast = tab_uintsize[s]
+    myesp = esp
+    int_cast = uint32
 
     if a.get_size() > s:
         # 16-bit operand size: the low word of the return address
@@ -1327,13 +1328,14 @@ def call(info, a, b, seg = None):
 def ret(info, a = ExprInt32(0)):
     e = []
     opmode, admode = info.opmode, info.admode
+    # the operand size gives the size of the slot; the stack pointer of a
+    # 32-bit stack segment is esp whatever the operand size (as in push/pop)
     if opmode == x86_afs.u16:
         s = 16
-        myesp = esp[:16]
     else:
         s = 32
-        myesp = esp
-    int_cast = tab_uintsize[s]
+    myesp = esp
+    int_cast = uint32
     # the byte count (imm16, or the default 0) in the width of the stack pointer
     a = ExprInt(int_cast(int(a.arg)))
     e.append(ExprAff(myesp, ExprOp('+', myesp, ExprOp('+', ExprInt(int_cast(s//8)), a))))
@@ -1343,13 +1345,14 @@ def ret(info, a = ExprInt32(0)):
 def retf(info, a = ExprInt32(0)):
     e = []
     opmode, admode = info.opmode, info.admode
+    # the operand size gives the size of the slot; the stack pointer of a
+    # 32-bit stack segment is esp whatever the operand size (as in push/pop)
     if opmode == x86_afs.u16:
         s = 16
-        myesp = esp[:16]
     else:
         s = 32
-        myesp = esp
-    int_cast = tab_uintsize[s]
+    myesp = esp
+    int_cast = uint32
     a = ExprInt(int_cast(int(a.arg)))
     # (the selector is popped in a slot of the operand size)
     e.append(ExprAff(myesp, ExprOp('+', myesp, ExprOp('+', ExprInt(int_cast(2*(s//8))), a))))
@@ -1362,41 +1365,44 @@ def retf(info, a = ExprInt32(0)):
 
 def leave(info):
     opmode, admode = info.opmode, info.admode
+    # esp = ebp, then (e)bp is popped: the operand size is the size of the
+    # slot, the stack pointer is esp (as in push/pop)
     if opmode == x86_afs.u16:
         s = 16
-        myesp = esp[:16]
         myebp = ebp[:16]
     else:
         s = 32
-        myesp = esp
         myebp = ebp
-    int_cast = tab_uintsize[s]
 
     e = []
-    e.append(ExprAff(myebp, ExprMem(myebp, size = s)))
-    e.append(ExprAff(myesp, ExprOp('+', ExprInt(int_cast(s/8)), myebp)))
+    e.append(ExprAff(myebp, ExprMem(ebp, size = s)))
+    e.append(ExprAff(esp, ExprOp('+', ExprInt32(s/8), ebp)))
     return e
 
 def enter(info, a,b):
     opmode, admode = info.opmode, info.admode
+    # the operand size is the size of the slot and of the frame pointer
+    # written; the stack pointer is esp (as in push/pop)
     if opmode == x86_afs.u16:
         s = 16
-        myesp = esp[:16]
         myebp = ebp[:16]
     else:
         s = 32
-        myesp = esp
         myebp = ebp
-    int_cast = tab_uintsize[s]
+    myesp = esp
+    int_cast = uint32
 
     e = []
     esp_tmp = ExprOp("-", myesp, ExprInt(int_cast(s/8)))
     e.append(ExprAff(ExprMem(esp_tmp,
                              size = s),
                      myebp))
-    e.append(ExprAff(myebp, esp_tmp))
+    if s == 16:
+        e.append(ExprAff(myebp, esp_tmp[:16]))
+    else:
+        e.append(ExprAff(myebp, esp_tmp))
     e.append(ExprAff(myesp, ExprOp('-', myesp,
-                                      ExprOp("+", a, ExprInt(int_cast(s/8)))
+                                      ExprOp("+", zeroext32(a), ExprInt(int_cast(s/8)))
                                 )
                     )
             )
